@@ -235,6 +235,50 @@ impl Monitor for C09 {
                     }
                 }
             }
+            // ---- very long windows and very large demands (up to ~2^60): every additional full period adds
+            //      exactly Q units of service to ANY window, hence sbf(d0 + k P) = sbf(d0) + k Q for d0 >= P and
+            //      service_time(s0 + k Q) = service_time(s0) + k P for s0 >= 1; the small-argument values on the
+            //      right-hand sides were just compared with the brute-force minimum / linear scan
+            for _ in 0..6 {
+                let k = rng.log_range(1u64 << 20, (1u64 << 60) / p.max(1)).max(1);
+                let d0 = rng.range(p, 2 * p + 1);
+                let base = match full.get(d0 as usize) {
+                    Some(b) => *b,
+                    None => continue,
+                };
+                match guard(|| u64::from(lib.provided_service(Duration::from(d0 + k * p)))) {
+                    Ok(got) => {
+                        rep.count("very_long_windows_checked", 1);
+                        if got != base + k * q {
+                            rep.violation(
+                                format!("C09 impl={} kind=provided_service-breaks-period-structure (very long window)", kind),
+                                jobj! {"Q"=>q,"D"=>d,"P"=>p,"delta0"=>d0,"k_periods"=>k,"provided_service(delta0 + k P)"=>got,"provided_service(delta0) + k Q"=>base + k * q},
+                            );
+                        }
+                    }
+                    Err(c) => rep.violation(
+                        format!("C09 impl={} kind={}-in-provided_service class={} (very long window)", kind, c.kind, c.class()),
+                        jobj! {"Q"=>q,"D"=>d,"P"=>p,"delta"=>d0 + k * p,"caught"=>c.to_json()},
+                    ),
+                }
+                let s0 = rng.range(1, q.max(1) * 2);
+                let t0 = u64::from(lib.service_time(Service::from(s0)));
+                match guard(|| u64::from(lib.service_time(Service::from(s0 + k * q)))) {
+                    Ok(got) => {
+                        rep.count("very_large_demands_checked", 1);
+                        if got != t0 + k * p {
+                            rep.violation(
+                                format!("C09 impl={} kind=service_time-breaks-period-structure (very large demand)", kind),
+                                jobj! {"Q"=>q,"D"=>d,"P"=>p,"demand0"=>s0,"k_periods"=>k,"service_time(demand0 + k Q)"=>got,"service_time(demand0) + k P"=>t0 + k * p},
+                            );
+                        }
+                    }
+                    Err(c) => rep.violation(
+                        format!("C09 impl={} kind={}-in-service_time class={} (very large demand)", kind, c.kind, c.class()),
+                        jobj! {"Q"=>q,"D"=>d,"P"=>p,"demand"=>s0 + k * q,"caught"=>c.to_json()},
+                    ),
+                }
+            }
             // ---- concrete random placements never deliver less than promised
             let periods = 5u64;
             for _ in 0..(if exhaustive { 4 } else { 8 }) {
